@@ -308,6 +308,8 @@ def _sample_case(formula_text, exposure_fixed=None):
         rest = E.real('rest', lo=0, hi=1e5, srange=(0, 100))
         env = activation.ActivationEnvironment(fluence=fluence, Cd_ratio=0., fast_ratio=0.)
         s = activation.Sample(formula_text, mass)
+        # a second calculation on the same Sample replaces the first one
+        s.calculate_activation(activation.ActivationEnvironment(fluence=2 * fluence, Cd_ratio=0., fast_ratio=0.), exposure=exposure, rest_times=[0, rest])
         s.calculate_activation(env, exposure=exposure, rest_times=[0, rest])
         f = formulas.formula(formula_text)
         total_mass = sum(c * a.mass for a, c in f.atoms.items())
